@@ -1,5 +1,6 @@
 import copy
 from dataclasses import dataclass
+from decimal import Decimal
 from typing import Any, Optional, Tuple, Union
 
 from vtlengine import AST
@@ -70,11 +71,10 @@ def _handle_literal(value: Union[str, int, float, bool]):
     elif isinstance(value, bool):
         return "true" if value else "false"
     elif isinstance(value, float):
-        decimal = str(value).split(".")[1]
-        if len(decimal) > 4:
-            return f"{value:f}".rstrip("0")
-        else:
-            return f"{value:g}"
+        # Shortest digits that read back as the same float, written without exponent (the
+        # grammar has none). Trailing zeros are dropped as before (3.0 is written 3).
+        text = format(Decimal(repr(value)), "f")
+        return text.rstrip("0").rstrip(".") if "." in text else text
     return str(value)
 
 
